@@ -82,6 +82,14 @@ def handle : List String → String
     match parseInt nb, parseInt fs, parseInt frame, parseInt maxb, parseInt tot, parseInt s with
     | some nb, some fs, some frame, some maxb, some tot, some s => s!"v={msCurrMax nb fs frame maxb tot s}"
     | _, _, _, _, _, _ => "bad-op"
+  | ["cvbrrel", v, res, nb, ret] =>
+    match parseInt v, parseInt res, parseInt nb, parseInt ret with
+    | some v, some res, some nb, some ret =>
+      -- the relation `cvbrStep_spec` proves of `cvbrStep`: reservoir' = max 0 (res + 64*bytes - vbr_rate),
+      -- bytes within `max_allowed`
+      let ok := decide (2 ≤ ret ∧ ret ≤ cvbrMaxAllowed v res nb)
+      s!"v={max 0 (res + 64 * ret - v)} ok={if ok then 1 else 0}"
+    | _, _, _, _ => "bad-op"
   | ["mscurr2", nb, fs, frame, vbr, br, out, tot, s] =>
     match parseInt nb, parseInt fs, parseInt frame, parseInt vbr, parseInt br, parseInt out, parseInt tot, parseInt s with
     | some nb, some fs, some frame, some vbr, some br, some out, some tot, some s =>
